@@ -144,7 +144,16 @@ class Expr(object):
             if e in dct:
                 return dct[e]
             return e
-        return self.visit(lambda e:my_replace(e, dct))
+        # simultaneous substitution: the keys are first replaced by marks,
+        # so that a value put in place never forms another key
+        marks, values = {}, {}
+        for i, k in enumerate(dct):
+            if not isinstance(k, Expr):
+                continue
+            m = ExprId('__replace_%d__' % i, k.get_size())
+            marks[k], values[m] = m, dct[k]
+        e = self.visit(lambda e:my_replace(e, marks))
+        return e.visit(lambda e:my_replace(e, values))
     def canonize(self):
         def my_canon(e):
             if isinstance(e, ExprOp):
